@@ -216,31 +216,38 @@ MatchLaw(a, f, s) ==
 LawsHold == ph # "pat" \/ (SyntaxLaw(cur.ast) /\ \A k \in 1..Len(LawSubjects(cur.fam, cur.fl)) : MatchLaw(cur.ast, cur.fl, LawSubjects(cur.fam, cur.fl)[k]))
 
 \* ---------------- Judge -------------------------------------------------------------------------
-Recs == ndJsonDeserialize(IOEnv.OBS_FILE)     \* [id, ast, fl, subs, o (distinct observations), ch (seq of seq of index into o, one per channel)]
+Recs == ndJsonDeserialize(IOEnv.OBS_FILE)     \* [id, ast, fl, subs, open (names of the open findings' deviations), o (distinct observations), ch (seq of seq of index into o, one per channel)]
 \* an observation: [k |-> "null"] | [k |-> "m", i |-> index, g |-> texts] | [k |-> "err", cls |-> outcome kind, ty |-> exception type / error name, at |-> site]
 ObsOf(s, m) == IF m.ok THEN [k |-> "m", i |-> m.index, g |-> GroupTexts(s, m)] ELSE [k |-> "null"]
 SameObs(x, y) == x.k = y.k /\ (x.k = "m" => x.i = y.i /\ x.g = y.g) /\ (x.k = "err" => x.cls = y.cls /\ x.ty = y.ty)
 
 \* named deviations (known findings): exact as-is rules live in RegexSem (cx.devs) ...
 FlagsOf(r) == Flags(r.fl.i, r.fl.m, r.fl.s)
-Explain(a, f, s, act) ==
+\* `open` = the deviations listed as open findings (known_findings/C09.json, handed through with every record).  The other named rules of
+\* RegexSem describe defects repaired in the engine since: they still give a mismatch a name (triage), but never the name of an open
+\* finding - a combination of a repaired rule with an open one must not hide a regression behind the open one.
+Explain(a, f, s, act, open) ==
   IF act.k = "err"
   THEN (IF act.ty = "RegExpError" /\ Fwd(a, 0).bad THEN "Dev_ForwardRef"
         ELSE IF act.ty = "RegexStackOverflow" /\ SpinBad(a, f) THEN "Dev_SubmatcherOverflow" ELSE "")
   ELSE
   LET ds == Applicable(a, f)
-      hit == {d \in SUBSET ds : d # {} /\ SameObs(act, ObsOf(s, Search(a, s, f, 0, d)))}
-  IN IF hit # {} THEN LET d == CHOOSE d \in hit : \A e \in hit : Cardinality(d) <= Cardinality(e)
-                      IN CHOOSE x \in d : TRUE
-     ELSE IF SubBad(a, f, "la") THEN "Dev_LaSubmatcher"
-     ELSE IF SubBad(a, f, "lb") THEN "Dev_LbSubmatcher"
-     ELSE ""
+      Hits(S) == {d \in SUBSET S : d # {} /\ SameObs(act, ObsOf(s, Search(a, s, f, 0, d)))}
+      Least(H) == CHOOSE d \in H : \A e \in H : Cardinality(d) <= Cardinality(e)
+      h1 == Hits(ds \cap open)
+  IN IF h1 # {} THEN (CHOOSE x \in Least(h1) : TRUE)
+     ELSE LET h2 == Hits(ds)
+          IN IF h2 # {} THEN (CHOOSE x \in Least(h2) \ open : TRUE)
+             ELSE IF SubBad(a, f, "la") THEN "Dev_LaSubmatcher"
+             ELSE IF SubBad(a, f, "lb") THEN "Dev_LbSubmatcher"
+             ELSE ""
 \* per subject: the reference once; every *distinct* observation of the channels is compared (and explained) once
 JudgeRec(r) ==
   LET a == r.ast  f == FlagsOf(r)  subs == IF r.subs = "" THEN r.sl ELSE SubjectsOf(r.subs)
+      open == {r.open[k] : k \in 1..Len(r.open)}
       PerSubject(k) == LET ref == ObsOf(subs[k], Search(a, subs[k], f, 0, {}))
                            ois == {r.ch[c][k] : c \in 1..Len(r.ch)}
-                       IN {[k |-> k, oi |-> oi, dev |-> Explain(a, f, subs[k], r.o[oi]), exp |-> ref] : oi \in {x \in ois : ~SameObs(r.o[x], ref)}}
+                       IN {[k |-> k, oi |-> oi, dev |-> Explain(a, f, subs[k], r.o[oi], open), exp |-> ref] : oi \in {x \in ois : ~SameObs(r.o[x], ref)}}
   IN [id |-> r.id, n |-> Len(r.ch) * Len(subs), bad |-> SX2!SetToSeq(UNION {PerSubject(k) : k \in 1..Len(subs)})]
 JudgeInit == /\ rec_i \in 1..Len(Recs) /\ ph = "judge" /\ cur = <<>>
              /\ PrintT(ToJson(JudgeRec(Recs[rec_i])))
